@@ -172,9 +172,19 @@ JSniff(e) ==
 
 Outcomes(e) == {"total." \o e.fmt \o "." \o o.kind : o \in {x \in {e.w1, e.r1, e.w2, e.r2} : x.kind \in {"panic", "hang", "both", "neither", "exit"}}}
 
+\* observations beyond the listed properties (never a violation, reported in the evidence): the path-taking entry
+\* points agree with the stream ones; document-level metadata that the formats carry
+Extras(e) ==
+  (IF "file" \in DOMAIN e /\ e.file \notin {"same", "skip"} THEN {"obs.file-api." \o e.file} ELSE {})
+  \cup (IF Ok(e.w1) /\ Ok(e.r1) /\ e.fmt = "spdx23" /\ MetaF(e.doc, "name") # MetaF(e.doc1, "name") THEN {"obs.spdx.meta.name"} ELSE {})
+  \cup (IF Ok(e.w1) /\ Ok(e.r1) /\ e.fmt \in {"cdx14", "cdx15"} /\ "metadata" \in DOMAIN e.doc /\ "metadata" \in DOMAIN e.doc1
+           /\ Len(Sq(e.doc.metadata, "authors")) # Len(Sq(e.doc1.metadata, "authors")) THEN {"obs.cdx.meta.authors"} ELSE {})
+  \cup (IF Ok(e.w1) /\ Ok(e.r1) /\ "metadata" \in DOMAIN e.doc /\ "metadata" \in DOMAIN e.doc1
+           /\ Len(Sq(e.doc1.metadata, "tools")) < Len(Sq(e.doc.metadata, "tools")) THEN {"obs." \o e.fmt \o ".meta.tools-lost"} ELSE {})
+
 Judge(e) ==
   CASE e.op = "RT" ->
-         Outcomes(e)
+         Outcomes(e) \cup Extras(e)
          \cup (IF e.cls = "spdx" THEN RTspdx(e) ELSE IF e.cls \in {"cdx14", "cdx15"} THEN RTcdx(e) ELSE {})
          \cup (IF e.fmt = "spdx23" THEN XLspdx(e) ELSE XLcdx(e))
     [] e.op = "PF" ->
